@@ -7,7 +7,7 @@ pub mod palette;
 pub mod world;
 
 use std::cell::RefCell;
-use std::collections::BTreeSet;
+use std::collections::{BTreeMap, BTreeSet};
 use std::path::PathBuf;
 use std::rc::Rc;
 use std::time::Duration;
@@ -757,6 +757,22 @@ impl Sim {
                     s.clone(),
                     Vec::new(),
                 );
+                let snapshot: BTreeMap<u32, Vec<u32>> = monitors::job_views(&self.world)
+                    .iter()
+                    .map(|(j, v)| {
+                        (
+                            j.as_num(),
+                            v.tasks
+                                .iter()
+                                .filter(|(_, k)| !k.terminal())
+                                .map(|(id, _)| *id)
+                                .collect(),
+                        )
+                    })
+                    .collect();
+                if let Some(p) = self.world.clients[c].pending.as_mut() {
+                    p.unfinished_at_send = snapshot;
+                }
                 format!("cancel-job {s:?} client={c}")
             }
             Action::ForgetJob { job, sel } => {
